@@ -20,6 +20,7 @@ Definition ex_doc2 : doc :=
             [ NAssign (lit "PATTERN") (VStr (lit "abc")) [] None;
               NBlock (lit "null_") None
                 [ NAssign (lit "S") (VStr [34; 92; 92; 10; 9; 96; 96; 96; 32; 233]) [] None;
+                  NAssign (lit "S2") (VStr [c_bs; c_n; c_bs; c_t; c_bs; c_bs; c_n]) [] None;
                   NAssign (lit "T") (VBool true) [] None;
                   NAssign (lit "F") (VBool false) [] None;
                   NAssign (lit "N") VNull [] None ] [] ] [];
@@ -45,6 +46,47 @@ Proof. exact (lex_emit_core ex_cls (fun _ => false) ex_doc2 ex_doc2_core ex_doc2
 Example ex_doc2_lexes_computed :
   match tokenize ex_cls false (lines_of (emit (fun _ => false) ex_doc2)) with
   | LexOk toks reps => all2 tmatchb toks (doc_sh ex_doc2 ++ [(NEWLINE, None); (EOF, None)]) = true /\ reps = []
+  | _ => False
+  end.
+Proof. vm_compute. split; reflexivity. Qed.
+
+(* ---- regression for the repaired un-escape (repo 4b61c18): backslash directly before n / t ------------------------------ *)
+(* these strings were excluded (escape_safe) while the lexer un-escaped with four sequential replaces; with the single-pass
+   un-escape they satisfy lex_safe_doc and read back as themselves *)
+Definition ex_doc3 : doc :=
+  mkDoc (lit "ESC") None None true []
+    [ NAssign (lit "A") (VStr [c_bs; c_n]) [] None;
+      NBlock (lit "B") None
+        [ NAssign (lit "C") (VStr [c_bs; c_t]) [] None;
+          NBlock (lit "D") None [ NAssign (lit "E") (VStr [c_bs; c_bs; c_n]) [] None ] [] ] [] ]
+    [].
+Definition no_numcanon (raw : str) : option (bool * str) := None.
+
+Example ex_doc3_core : core_doc ex_doc3 = true.
+Proof. vm_compute. reflexivity. Qed.
+Example ex_doc3_lex_safe : lex_safe_doc ex_doc3 = true.
+Proof. vm_compute. reflexivity. Qed.
+Example ex_doc3_nums : nums_ok_l no_numcanon (dsections ex_doc3).
+Proof. cbn. repeat split. Qed.
+
+(* via the theorems *)
+Example ex_doc3_lexes :
+  exists ts tnl teof,
+    tokenize ex_cls false (lines_of (emit (fun _ => false) ex_doc3)) = LexOk (ts ++ [tnl; teof]) [] /\
+    Forall2 tmatch ts (doc_sh ex_doc3) /\ tk tnl = NEWLINE /\ tk teof = EOF.
+Proof. exact (lex_emit_core ex_cls (fun _ => false) ex_doc3 ex_doc3_core ex_doc3_lex_safe). Qed.
+Example ex_doc3_roundtrip :
+  exists warns, parse_model ex_cls no_numcanon (fun _ => false) true (lines_of (emit (fun _ => false) ex_doc3)) = PRDoc ex_doc3 [] warns /\
+                Forall advisory warns.
+Proof. exact (text_roundtrip_core ex_cls no_numcanon (fun _ => false) true (fun _ => false) ex_doc3 ex_doc3_core ex_doc3_lex_safe ex_doc3_nums). Qed.
+
+(* and by evaluation of the model *)
+Example ex_doc3_roundtrip_computed :
+  parse_model ex_cls no_numcanon (fun _ => false) true (lines_of (emit (fun _ => false) ex_doc3)) = PRDoc ex_doc3 [] [].
+Proof. vm_compute. reflexivity. Qed.
+Example ex_doc3_lexes_computed :
+  match tokenize ex_cls false (lines_of (emit (fun _ => false) ex_doc3)) with
+  | LexOk toks reps => all2 tmatchb toks (doc_sh ex_doc3 ++ [(NEWLINE, None); (EOF, None)]) = true /\ reps = []
   | _ => False
   end.
 Proof. vm_compute. split; reflexivity. Qed.
@@ -111,10 +153,6 @@ Qed.
 (* the document name END: `===END===` is the closing envelope *)
 Lemma lex_emit_core_refuted_name_END : exists d, core_doc d = true /\ lex_safe_doc d = false /\ ~ lex_emit_core_concl ex_cls (fun _ => false) d.
 Proof. exists (doc1 (lit "END") (lit "A") VNull). split; [reflexivity|]. split; [reflexivity|]. refute_shape. Qed.
-
-(* a string with a backslash directly before n: the sequential un-escape reads it as a newline (finding C04-escape-order) *)
-Lemma lex_emit_core_refuted_escape_order : exists d, core_doc d = true /\ lex_safe_doc d = false /\ ~ lex_emit_core_concl ex_cls (fun _ => false) d.
-Proof. exists (doc1 (lit "D") (lit "A") (VStr [c_bs; c_n; 32])). split; [reflexivity|]. split; [reflexivity|]. refute_shape. Qed.
 
 (* a string the emitter writes bare is lexed as an IDENTIFIER token, which is outside the shape language of
    Rt.TokRound (sval_sh maps VStr to a STRING token): excluded by design of doc_sh, not a defect *)
